@@ -18,9 +18,19 @@ Interface
   system_of(case)      -> system name for 'named', 'triclinic' for everything else
   kwargs_of(case, form=None) -> keyword dict to hand to a constructor taking C11=..., per documented alternatives
   FORMS[system]        -> the documented alternative keyword sets of a system
-  strategies (zero-argument, cached):  spd(), named(system=None), isotropic(), tensors(rotated=True), rot_specs(),
-                          strains()
-  labels_of(case)      -> set of classification labels
+  strategies (cached, build once):  spd(), named(system=None), isotropic(), tensors(rotated=True, isotropic_too=True),
+                          rot_specs() -> [axis, angle_deg], strains(scale=0.05) -> nested 3x3 list
+  rotate_case(case, rot) -> the 'rot' case;  labels_of(case) -> set of classification labels
+  Reference algebra used here (Voigt maps, rotation, symmetry generators, isotropic moduli, VRH) is in
+  pbt/oracles/elastic.py.
+
+Typical use in another check (never hand numpy arrays to a case; the case is the dict, the matrix is derived):
+      from .. import gens_c11 as g
+      T = draw(g.tensors())                 # in a composite strategy; put T into the case
+      C6 = g.cij(case['T'])                 # in the oracle: my 6x6, independent of atomman
+      ec = am.ElasticConstants(Cij=C6.copy())        or   am.ElasticConstants(**g.kwargs_of(case['T']))
+  Every generated tensor is positive definite with cond <= ~1e3 and max|C| in [1, ~600] (isotropic near nu = 0.495: up to ~2e4; think GPa); an isotropic case
+  ({'system': 'isotropic'}) is *exactly* isotropic, every other kind is anisotropic except by accident ('iso_mix' = 1.0).
 """
 import functools
 import math
